@@ -117,6 +117,32 @@ fn main() {
             std::process::exit(2);
         }
     };
+    // regression tier: saved failing inputs of earlier findings (regressions/<id>/*.json) are replayed on every run
+    let mut res = res;
+    let mut regressions = 0usize;
+    if replay.is_none() {
+        let dir = verif_dir.join("regressions").join(&prop);
+        let mut files: Vec<PathBuf> = std::fs::read_dir(&dir).map(|rd| rd.filter_map(|e| e.ok()).map(|e| e.path()).filter(|p| p.extension().map(|x| x == "json").unwrap_or(false)).collect()).unwrap_or_default();
+        files.sort();
+        for f in files {
+            if let Ok(txt) = std::fs::read_to_string(&f) {
+                if let Ok(doc) = serde_json::from_str::<J>(&txt) {
+                    let case = doc.get("case").cloned().unwrap_or(doc);
+                    if let Some(r) = vcommon::checks::run(&ctx, Some(&case)) {
+                        regressions += 1;
+                        res.evidence.evaluations += 1;
+                        for mut v in r.violations {
+                            v.message = format!("[regression case {}] {}", f.file_name().map(|x| x.to_string_lossy().to_string()).unwrap_or_default(), v.message);
+                            res.violations.push(v);
+                        }
+                    }
+                }
+            }
+        }
+        if regressions > 0 {
+            res.evidence.extra.insert("regression_cases_replayed".into(), serde_json::json!(regressions));
+        }
+    }
     let wall = t.secs();
 
     // known findings: print each listed open finding for this property
